@@ -179,11 +179,11 @@ def gen_load(rnd, tier, i):
     big = tier == "thorough"
     S = rnd.choice([1, 1, 2, 3])
     M = rnd.randint(1, 5)
-    G = rnd.choice([1, 2, 3, 5, 11, 21])
+    G = rnd.choice([1, 2, 3, 5, 11, 21]) if not big else rnd.choice([1, 2, 3, 5, 11, 21, 51])
     depth = rnd.choice([5, 20, 60]) if not big else rnd.choice([5, 20, 60, 150, 400])
     dyadic = rnd.random() < 0.7
     if i % 12 == 0:
-        G, M, S, depth = 101, 1, 1, min(depth, 60)
+        G, M, S, depth = (101 if i % 24 == 0 or not big else 201), 1, 1, min(depth, 60)
     if big and i % 40 == 1:
         G, M, S, depth, dyadic = rnd.choice([2, 3]), 1, 1, 2000, True
     density = rnd.choice(["binomial", "beta-binomial"])
@@ -240,8 +240,8 @@ def gen_sumone(rnd, tier, i):
             "t": rnd.choice(DYADIC_T if dyadic else DEC_T), "eps": rnd.choice(DYADIC_E if dyadic else DEC_E)}
 
 
-def gen_genotypes(rnd):
-    major = rnd.randint(1, 8)
+def gen_genotypes(rnd, tier="quick"):
+    major = rnd.randint(1, 8 if tier == "quick" else 16)
     minor = rnd.randint(0, major)
     normal = rnd.choice([1, 2, 2, major + minor, rnd.randint(1, 4)])
     return {"kind": "genotypes", "major": major, "minor": minor, "normal": normal, "eps": rnd.choice(DYADIC_E + DEC_E)}
@@ -289,19 +289,19 @@ def gen_malformed(rnd, which):
 def cases(tier, rnd):
     out = []
     q = tier == "quick"
-    for i in range(70 if q else 900):
+    for i in range(300 if q else 4000):
         out.append(gen_load(rnd, tier, i))
-    for i in range(10 if q else 60):
+    for i in range(30 if q else 200):
         out.append(gen_sumone(rnd, tier, i))
-    for _ in range(20 if q else 150):
-        out.append(gen_genotypes(rnd))
-    for _ in range(10 if q else 60):
+    for _ in range(40 if q else 400):
+        out.append(gen_genotypes(rnd, tier))
+    for _ in range(30 if q else 200):
         out.append(gen_prims(rnd, tier))
-    for _ in range(5 if q else 40):
+    for _ in range(20 if q else 150):
         out.append(gen_extreme(rnd))
-    for i in range(2 if q else 6):
+    for i in range(4 if q else 12):
         out.append(gen_intcol(rnd, i))
-    for w in ["major_lt_minor", "normal_zero", "precision_zero", "no_cluster"] * (1 if q else 4):
+    for w in ["major_lt_minor", "normal_zero", "precision_zero", "no_cluster"] * (2 if q else 4):
         out.append(gen_malformed(rnd, w))
     return out
 
